@@ -55,9 +55,16 @@ def run(ctx):
         recs = codecio.canonical_records(r, enc)
         if r.random() < 0.2:
             recs[0][0] = r.randrange(-5, 1000)
-        cases.append((recs, enc, r.randrange(0, 65)))
+        seq = r.randrange(0, 65)
+        cases.append((recs, enc, seq))
+        # the same records in every other encoding that can represent them, one after the other in this process
+        for other in codecio.ENCODINGS:
+            if other != enc and codecio.encodable_in(recs, other) and r.random() < 0.7:
+                cases.append((recs, other, seq))
     lines, impls, metas = [], [], []
     for recs, enc, seq in cases:
+        if r.random() < 0.04:
+            codecio.failing_encode(r, enc)
         case = {"records": codecio.records_wire(recs), "encoding": enc, "seq": seq}
         s.case(case, nontrivial=codecio.is_rich(recs))
         s.count(enc)
